@@ -87,7 +87,7 @@ const (
 	cUnknown   = "unknown"
 	cliMarker  = nIDs - 1
 	cliTimeout = 25 * time.Second // one child; far above the ~0.1 s a child needs
-	cliBudget  = 45 * time.Second // one case, below the watchdog of the spec
+	cliBudget  = 40 * time.Second // one case, below the watchdog of the spec
 )
 
 func cliBin() string { return os.Getenv("VERIF_DESYNC_BIN") }
@@ -543,15 +543,45 @@ type cliSrv struct {
 
 var cliSrvCounter uint32
 
-func cliListen() net.Listener {
+// cliIP: a loopback address of this process' own: other checks use 127.16-115.x.y, and two runs of
+// this check at the same time differ in the process id.
+func cliIP() [4]byte {
 	k := atomic.AddUint32(&cliSrvCounter, 1)
-	l, err := net.Listen("tcp", fmt.Sprintf("127.%d.%d.%d:0", 130+hx.Shard()%100, (k/250)%256, 1+k%250))
+	pid := uint32(os.Getpid())
+	return [4]byte{127, byte(128 + pid%127), byte((pid/127 + k/250) % 256), byte(1 + k%250)}
+}
+
+func cliListen() net.Listener {
+	ip := cliIP()
+	l, err := net.Listen("tcp", fmt.Sprintf("%d.%d.%d.%d:0", ip[0], ip[1], ip[2], ip[3]))
 	if err != nil {
 		if l, err = net.Listen("tcp", "127.0.0.1:0"); err != nil {
 			panic(err)
 		}
 	}
 	return l
+}
+
+// cliReserve binds an address without listening: connecting to it is refused, and nobody else
+// can take it while the case runs.
+func cliReserve() (addr string, release func()) {
+	fd, err := syscall.Socket(syscall.AF_INET, syscall.SOCK_STREAM|syscall.SOCK_CLOEXEC, 0)
+	if err != nil {
+		panic(err)
+	}
+	sa := &syscall.SockaddrInet4{Addr: cliIP()}
+	if err := syscall.Bind(fd, sa); err != nil {
+		sa = &syscall.SockaddrInet4{Addr: [4]byte{127, 0, 0, 1}}
+		if err := syscall.Bind(fd, sa); err != nil {
+			panic(err)
+		}
+	}
+	got, err := syscall.Getsockname(fd)
+	if err != nil {
+		panic(err)
+	}
+	g4 := got.(*syscall.SockaddrInet4)
+	return fmt.Sprintf("%d.%d.%d.%d:%d", g4.Addr[0], g4.Addr[1], g4.Addr[2], g4.Addr[3], g4.Port), func() { syscall.Close(fd) }
 }
 
 func (s *cliSrv) ServeHTTP(w http.ResponseWriter, r *http.Request) {
@@ -642,10 +672,20 @@ func (s *cliSrv) close() {
 
 // cliEnd is one materialised member: directory, optional server, the location string for the CLI.
 type cliEnd struct {
-	m   CLIMember
-	dir string
-	srv *cliSrv // nil for dir and for refused
-	loc string
+	m       CLIMember
+	dir     string
+	srv     *cliSrv // nil for dir and for refused
+	loc     string
+	release func() // refused: gives the reserved address back
+}
+
+func (e *cliEnd) close() {
+	if e.srv != nil {
+		e.srv.close()
+	}
+	if e.release != nil {
+		e.release()
+	}
 }
 
 // touched: requests this member's server saw for ID i.
@@ -673,13 +713,11 @@ type cliChain struct {
 func (ch *cliChain) close() {
 	for _, st := range ch.stores {
 		for _, e := range st {
-			if e.srv != nil {
-				e.srv.close()
-			}
+			e.close()
 		}
 	}
-	if ch.ownsCache && ch.cache != nil && ch.cache.srv != nil {
-		ch.cache.srv.close()
+	if ch.ownsCache && ch.cache != nil {
+		ch.cache.close()
 	}
 }
 
@@ -713,15 +751,20 @@ func materialiseMember(base, name string, m CLIMember, u *universe, writable boo
 		e.loc = e.dir
 		return e
 	}
-	ln := cliListen()
-	e.loc = "http://" + ln.Addr().String() + "/"
-	if m.Pfx {
-		e.loc = "http://" + ln.Addr().String() + "/store"
+	setLoc := func(addr string) {
+		e.loc = "http://" + addr + "/"
+		if m.Pfx {
+			e.loc = "http://" + addr + "/store"
+		}
 	}
 	if m.Down == "refused" {
-		ln.Close() // the address is private to this shard and case: nobody else will listen there
+		var addr string
+		addr, e.release = cliReserve()
+		setLoc(addr)
 		return e
 	}
+	ln := cliListen()
+	setLoc(ln.Addr().String())
 	s := &cliSrv{kind: m.Kind, dir: e.dir, pfx: m.Pfx, writable: writable, fail500: m.Down == "500", ln: ln, served: make(chan struct{})}
 	if m.Kind == "http" {
 		// like `desync chunk-server [-w]` over a directory: the server does not verify, the client does
@@ -1161,13 +1204,16 @@ func runCLIOneShot(c Case, cl *CLICase, dir string, o *hx.Outcome) {
 				return false
 			}
 			sig := "C11:cli:plain:failed"
+			repaired := func(r cliRes) bool { return r.cache == "repair" }
 			switch {
-			case has(func(r cliRes) bool { return r.cache == "repair" }):
+			case has(repaired) && (strings.Contains(msg, "does not match its hash") || !has(func(r cliRes) bool { return r.advance || r.answer > 0 })):
 				sig = "C11:cli:cache:repair-not-applied"
 			case has(func(r cliRes) bool { return r.advance }):
 				sig = "C11:cli:failover:failed-with-healthy-member"
 			case has(func(r cliRes) bool { return r.answer > 0 }):
 				sig = "C11:cli:router:failed-with-later-member-having-chunk"
+			case has(repaired):
+				sig = "C11:cli:cache:repair-not-applied"
 			case has(func(r cliRes) bool { return r.cache == "fill" }):
 				sig = "C11:cli:cache:miss-failed"
 			case has(func(r cliRes) bool { return r.cache == "hit" }):
@@ -1376,6 +1422,10 @@ func runCLIServer(c Case, cl *CLICase, dir string, o *hx.Outcome) {
 		select {
 		case <-p.done:
 			stopped = true
+			if strings.Contains(p.out.String(), "address already in use") {
+				inconclusive(o, "listen-address-taken")
+				return
+			}
 			o.Fail("C11:cli:server:exited-at-start", "desync %s ended (exit %d) instead of serving: %q", strings.Join(args, " "), p.exitCode(), clip(p.out.String()))
 			return
 		case <-time.After(2 * time.Millisecond):
@@ -1436,7 +1486,7 @@ func runCLIServer(c Case, cl *CLICase, dir string, o *hx.Outcome) {
 					sig = "C11:cli:server:wrong-bytes"
 				case viaRepair && got == cErr:
 					sig = "C11:cli:cache:repair-not-applied"
-				case want == cData && ms.events["failover-advance"]:
+				case got == cErr && ms.events["failover-advance"] && !ms.events["failover-exhausted"]:
 					sig = "C11:cli:failover:failed-with-healthy-member"
 				case want == cData && ms.events["router-fallthrough"]:
 					sig = "C11:cli:router:failed-with-later-member-having-chunk"
